@@ -860,6 +860,20 @@ impl<'a> Ctx<'a> {
             if matches!(p.exp, UdpExp::OneOf(_)) {
                 self.rep.probes.inc("udp_probe_unjudged");
             }
+            if let Some((_, t)) = self.m.udp_binding_match(p.from_h, p.dst) {
+                if matches!(t.role, Role::Udp { peer: Some(_) }) {
+                    match (&p.exp, got) {
+                        (UdpExp::Exactly(Some(_)), _) => self.rep.probes.inc("connected_udp_got_peer_datagram"),
+                        (UdpExp::Exactly(None), _) => self.rep.probes.inc("connected_udp_filtered_non_peer"),
+                        _ => {}
+                    }
+                } else if t.local.ip().is_unspecified() && got.is_some() {
+                    self.rep.probes.inc("udp_delivered_via_wildcard");
+                }
+            }
+            if self.m.dest_host(p.from_h, p.dst.ip()).is_none() {
+                self.rep.probes.inc("udp_to_unknown_address");
+            }
         }
         self.rep.probes.add("udp_probes_delivered", delivered);
         self.log.ev(format!("  udp sweep: {} probes, {} delivered", sent.len(), delivered));
@@ -1203,8 +1217,8 @@ impl Property for C17 {
     }
     fn budget(tier: Tier) -> u64 {
         match tier {
-            Tier::Quick => 24_000,
-            Tier::Thorough => 400_000,
+            Tier::Quick => 120_000,
+            Tier::Thorough => 3_000_000,
         }
     }
 
@@ -1213,7 +1227,7 @@ impl Property for C17 {
         let hosts: Vec<Vec<String>> = (0..nh).map(|h| host_addrs(rng, h)).collect();
         let unknown = vec!["10.9.9.9".to_string(), "fd00::9:9".to_string()];
         let cfg = NetCfg { retx_threshold: rng.range(2, 3) as u32, retx_max: rng.range(1, 4) as u32, backlog: 64 };
-        let exhaustion = tier == Tier::Thorough && rng.chance(1, 400);
+        let exhaustion = tier == Tier::Thorough && rng.chance(1, 4000);
         let mut steps = Vec::new();
         let mut shadow: Vec<Shadow> = Vec::new();
         let mut next_id = 1u32;
@@ -1273,7 +1287,7 @@ impl Property for C17 {
                     // a held SYN-ACK makes both ends retransmit; the kernel carries the handshake's
                     // retransmit count into the established phase (C06's subject), so holds are only
                     // generated with a retransmit budget that leaves room afterwards
-                    let synack_hold = if cfg.retx_max >= 3 && rng.chance(1, 3) { rng.range(1, cfg.retx_threshold as u64 + 1) as u8 } else { 0 };
+                    let synack_hold = if cfg.retx_max >= 3 && rng.chance(1, 2) { rng.range(1, cfg.retx_threshold as u64 + 1) as u8 } else { 0 };
                     shadow.push(Shadow { id, host, proto: Proto::Tcp, ip: ip.clone(), port: PortRef::Of(id), conn: true });
                     steps.push(Step::TcpConnect { id, host, ip, port, synack_hold });
                 }
